@@ -227,3 +227,7 @@ def c19_checks(repo: Repo, tier: str, res: CheckResult, seed: int) -> None:
 
 def c06_checks(repo: Repo, tier: str, res: CheckResult, seed: int) -> None:
     return
+
+
+def c05_checks(repo: Repo, tier: str, res: CheckResult, seed: int) -> None:
+    return
